@@ -25,7 +25,8 @@ LEVEL = {
            "and every cut offset, what the flat parser yields from the cut stream is a prefix of what it yields from the whole "
            "(applied twice: nothing invented or reordered, and every fully delivered frame is delivered). Tied by cutting real "
            "streams at every byte offset.",
-    "C13": "Theorems C13_header_fidelity (what the reader is told = what was written, all classes/types/sizes/Unicode names/"
+    "C13": "Theorems C13_header_fidelity_bytes (from the BYTES of any successful run, both framings, the reader extracts exactly the "
+           "options written and the framing mode), C13_header_fidelity (what the reader is told = what was written, all classes/types/sizes/Unicode names/"
            "flags, both framings), C13_version, C13_type_pairs_agree + tables_type_compat (writer, reader and spec agree on the "
            "whole 4x8 table, regenerated from the live code), C13_writer_rejects, reader rejections (names<8, >4096, version>2), "
            "C13_strict_gates, C13_logical_type_irrelevant(_state), C13_infer_flow_table + tables_stream_new.",
@@ -62,7 +63,9 @@ LEVEL = {
     "C20": "The property is FALSE on the current code. Proved: C20_counterexample (kernel-checked: after a rejected statement the "
            "next one decodes to different data), C20_rejection_leaves_flow_untouched (nothing of a rejected statement reaches "
            "the flow, so what was written before stays a valid prefix — the last sentence of the property, for all inputs), "
-           "C20_clean_rejection_leaves_no_trace. The check's failures must match the known finding's signature (model predicts "
+           "C20_clean_rejection_leaves_no_trace, C20_prefix_valid + C20_prefix_accepted (when a statement is rejected after a prefix "
+           "of well-formed fitting statements, everything handed out or buffered so far is accepted by the reference decoder "
+           "and denotes exactly the accepted prefix). The check's failures must match the known finding's signature (model predicts "
            "the same output AND the rejection changed encoder state). Partial.",
     "C17": "Theorems on the model parser (a total Lean function, so every input has an outcome): C17_frames_bounded (the frame "
            "loop delivers at most one frame per input byte), C17_tables_capped / C17_oversized_refused (a decoder only ever "
@@ -82,13 +85,18 @@ LEVEL = {
            "list incl. empty frames; hence any two partitions agree), C07_grouped_one_per_frame, C07_grouped_concat_eq_flat "
            "(for every byte string and source kind), C07_one_frame_per_nonempty_sink (grouped serialization), "
            "C06_rows_independent_of_flow (state carried across frames: one stream, rows independent of cuts).",
-    "C02": "The rdflib serializer is the generic writer model under other loops: C02_graphs_loops_agree and "
+    "C02": "C02_graphs_dataset / C02_triples_dataset: a Dataset written graph by graph through a GraphStream (any enumeration order, "
+           "empty graphs, repeated names) or a Graph/Dataset written through a TripleStream is valid for the reference decoder "
+           "and denotes every statement under its graph name. The rdflib serializer is the generic writer model under other loops: C02_graphs_loops_agree and "
            "C15_serializers_agree_* prove the rdflib loops equal the generic ones on corresponding input, so C03_* (valid, "
            "denotes the input) and C04 (decoder returns the denotation; C15_integrations_agree_rows: the rdflib adapter "
            "behaves like the generic one on RDF 1.1 rows) carry over; sets instead of sequences because rdflib's enumeration "
            "order is arbitrary (the theorems hold for every order). rdflib itself is modelled, not verified. Two genuine "
            "defects repaired by fix: commits (lexical normalisation; URIRef-keyed lookups).",
-    "C14": "Theorems: C14_no_namespace_rows_when_off (every stream class, sink or generator input), C14_version_two_iff_enabled, "
+    "C14": "Theorems: C14_triples_sink / C14_quads_sink (a sink with bindings written with declarations on: the rows are valid and "
+           "denote first the declarations — same prefix, same IRI, same order — then the statements, including when "
+           "declarations evict statement entries from small tables), C14_statements_unaffected (option on vs off: same "
+           "statement events), C14_no_namespace_rows_when_off (every stream class, sink or generator input), C14_version_two_iff_enabled, "
            "C14_no_bindings_same_rows, C14_namespace_row_decoding, namespace_run (a successful declaration on a version-2 stream "
            "is accepted by the reference decoder and denotes exactly (name, IRI); it goes through the same mirrored tables as "
            "statements, so evictions caused by declarations are covered by the C03 simulation). The end-to-end 'same bindings "
